@@ -91,7 +91,7 @@ end Tak
 namespace Tak
 
 /-- what a successful `mapM` in the `Except` monad returned -/
-theorem mapM_ok {α β : Type} (f : α → R β) : ∀ (l : List α) (ps : List β), l.mapM f = .ok ps →
+theorem mapM_ok_mem {α β : Type} (f : α → R β) : ∀ (l : List α) (ps : List β), l.mapM f = .ok ps →
     (∀ e ∈ ps, ∃ k ∈ l, f k = .ok e) ∧ (∀ k ∈ l, ∃ e ∈ ps, f k = .ok e) := by
   intro l
   induction l with
@@ -142,7 +142,7 @@ theorem symmetries_mem (basis : Array W) (p : Pos) (rs : List (Pos × Fin 8)) (h
   | ok ps =>
     rw [hps] at h
     have hrs : rs = dedupByHash ps [] [] := by cases h; rfl
-    obtain ⟨m1, m2⟩ := mapM_ok _ _ _ hps
+    obtain ⟨m1, m2⟩ := mapM_ok_mem _ _ _ hps
     have hmem : ∀ e ∈ ps, imagePos basis p e.2 = .ok e.1 := by
       intro e he
       obtain ⟨k, _, hk⟩ := m1 e he
